@@ -139,3 +139,9 @@ package websocket
 //@   modifies allfields(RoomManager.rooms), allmaps(map[string]*Room), allfields(Room.connections), allfields(Room.maxConnections), allmaps(map[*Connection]bool)
 //@   summary forall(m, map[*Connection]bool, len(m) <= old(len(m)))
 //@   loop 1 invariant held(addr(rm.mu))
+
+// the disconnect signal: closes the connection's `closed` channel once (sync.Once) and touches nothing else
+// (summary: the body goes through sync.Once.Do, which the contracts do not follow)
+//@ func (*Connection).markClosed
+//@   trusted
+//@   modifies nothing
